@@ -325,6 +325,9 @@ def sched_history(rng, ttl_q, fixed=None):
                     choices += ['start', 'start']
                 if state['suspended']:
                     choices += ['resume']
+                    # a suspended put may be cancelled (its task's session ended): no more turns for it
+                    if any(ops[o][0] == 'P' for o, _f in state['suspended']):
+                        choices += ['cancel']
                 c = rng.choice(choices)
                 clock += rng.choice((0, 0, 1, ttl_q // 3))
                 sim.clock.q = clock
@@ -335,6 +338,16 @@ def sched_history(rng, ttl_q, fixed=None):
                     state.setdefault('started_at', {})[oi] = clock
                     evs.append('%s@%d@%s' % (ops[oi][0], clock, sim.show(ops[oi][1])))
                     tasks[oi] = loop.create_task(run_op(oi))
+                elif c == 'cancel':
+                    idx = rng.choice([j for j, (o, _f) in enumerate(state['suspended']) if ops[o][0] == 'P'])
+                    oi, fut = state['suspended'][idx]
+                    evs.append('X@%d' % idx)
+                    tasks[oi].cancel()
+                    try:
+                        await tasks[oi]
+                    except BaseException:      # noqa
+                        pass
+                    state['suspended'] = [(o, f) for (o, f) in state['suspended'] if o != oi]
                 else:
                     idx = rng.randrange(len(state['suspended']))
                     oi, fut = state['suspended'][idx]
@@ -344,7 +357,10 @@ def sched_history(rng, ttl_q, fixed=None):
                         fut.set_result(None)
                 await settle()
             for tk in tasks.values():
-                await tk
+                try:
+                    await tk
+                except BaseException:      # noqa
+                    pass
         sim.run(scheduler())
         sim.gate = None
         ev_str = sim.take_events()
